@@ -13,20 +13,15 @@ COMMON_NOTE = ('Trusted: Lean 4.33 kernel (axioms ⊆ {propext, Classical.choice
                'correspondence check of each run (differential testing at public entry points, seeded, shrinking); '
                'CPython/asyncio/third-party libraries and the harness are trusted. ')
 
-# id -> dict(text, note, technique, design_ref)   (only properties that have a working check)
-CLAIMED = {
-    'C11': dict(
-        text='Lean theorems over every history of triggers/listens/ticks, any number of sessions and every queue '
-             'capacity: level safety (inductive invariant), refinement of the queue discipline to the declarative '
-             'squash (dedup + drop-oldest), order/exactly-once (sublist), loss only by supersession or overflow, '
-             'answered-at-tick. Model tied to core/sessions.py + the real event classes by a differential run of '
-             'random op sequences through get_listen / events.trigger / sessions.update, plus a direct property '
-             'oracle on the real responses.',
-        note=COMMON_NOTE + '"As soon as an event is available" is taken as "at the next sessions.update() tick"; '
-             'fake port/slave objects inside events; virtual wall clock.',
-        technique='Lean 4 proof (inductive invariant + refinement) with model-vs-code correspondence check',
-        design_ref='§6 C11, Appendix A.1'),
-}
+# id -> dict(text, note, technique, design_ref): one file per claimed property in manifest.d/Cxx.json
+CLAIMED = {}
+_d = os.path.join(VERIF, 'manifest.d')
+for _f in sorted(os.listdir(_d)):
+    if _f.endswith('.json'):
+        _c = json.load(open(os.path.join(_d, _f)))
+        if not _c.get('note', '').startswith('Trusted: Lean'):
+            _c['note'] = COMMON_NOTE + _c.get('note', '')
+        CLAIMED[_f[:-5]] = _c
 
 PENDING_REASON = 'check under construction in this session (model/proof/correspondence not committed yet); not claimed until it runs'
 
